@@ -431,6 +431,52 @@ def _slice_callees(b, fd, ops, limit=400):
     return names
 
 
+CMP_CALLS = ('Ord::cmp', 'PartialOrd::partial_cmp', 'PartialOrd::gt', 'PartialOrd::ge', 'PartialOrd::lt', 'PartialOrd::le', 'PartialEq::eq', 'PartialEq::ne')
+GCD_CALLS = ('gcd', 'gcd_ref', 'gcd_mut', 'gcd_u')
+
+
+def loop_unit_tests(prog, eng, b, fd, blocks):
+    """comparisons with 1 that a generate-and-test loop makes, directly or inside a local boolean helper it calls (`is_unit_above_one(&x, n)`):
+    ([comparisons of the candidate (a power) with 1], [comparisons of a gcd with 1]).  Callees are read off the backward slice of the operands;
+    for a helper, the slice continues in the caller's arguments."""
+    cand, gcd = [], []
+
+    def judge(names, at, what):
+        if ('c', '1') not in at:
+            return
+        if names & set(GCD_CALLS):
+            gcd.append(what)
+        elif any(nm.startswith(('secure_pow_mod', 'pow_mod')) for nm in names):
+            cand.append(what)
+
+    for bi, t in b.calls():
+        if bi not in blocks:
+            continue
+        cal = t.get('callee') or ''
+        if cal.endswith(CMP_CALLS):
+            at = set()
+            for a in t['args']:
+                at |= fd.read_op(a)
+            judge(_slice_callees(b, fd, t['args']), at, cal.split('::')[-1])
+            continue
+        tgt = local_target(eng, t)
+        if tgt and tgt in prog.bodies and prog.bodies[tgt].local_ty(0) == 'bool' and prog.bodies[tgt].kind != 'Closure':
+            hb, hfd = prog.bodies[tgt], eng.fndep(tgt)
+            outer = _slice_callees(b, fd, t['args'])
+            for hbi, ht in hb.calls():
+                hcal = ht.get('callee') or ''
+                if not hcal.endswith(CMP_CALLS):
+                    continue
+                at = set()
+                for a in ht['args']:
+                    at |= hfd.read_op(a)
+                names = _slice_callees(hb, hfd, ht['args'])
+                if any(strip(x)[0] == 'p' for x in at):
+                    names = names | outer          # the helper's operands come from the caller's candidate
+                judge(names, at, '%s>%s' % (tgt.split('::')[-1], hcal.split('::')[-1]))
+    return cand, gcd
+
+
 def rule_key_generation(ctx, cfg='prod-all'):
     from flow import walk
     prog, eng, ga = ctx.prog(cfg), ctx.eng(cfg), ctx.gates(cfg)
@@ -524,27 +570,12 @@ def rule_key_generation(ctx, cfg='prod-all'):
                 for g2 in ga._flatten(classify_switch(eng, fd, x)):
                     gates.append(g2.what or '')
     has_gt = any('Ordering' in w or 'PartialEq' in w or 'PartialOrd' in w or 'cmp' in w for w in gates)
-    CMP = ('Ord::cmp', 'PartialOrd::partial_cmp', 'PartialOrd::gt', 'PartialOrd::ge', 'PartialOrd::lt', 'PartialOrd::le', 'PartialEq::eq', 'PartialEq::ne')
-    GCD = ('gcd', 'gcd_ref', 'gcd_mut', 'gcd_u')
     in_loop = set()
     for h, blocks in b.natural_loops():
         in_loop |= set(blocks)
-    qr_tests, gcd_tests = [], []
-    for bi, t in b.calls():
-        cal = t.get('callee') or ''
-        if bi not in in_loop or not cal.endswith(CMP):
-            continue
-        at = set()
-        for a in t['args']:
-            at |= fd.read_op(a)
-        names = _slice_callees(b, fd, t['args'])
-        if ('c', '1') not in at:
-            continue
-        if names & set(GCD):
-            gcd_tests.append(cal.split('::')[-1])
-        elif any(nm.startswith('secure_pow_mod') or nm.startswith('pow_mod') for nm in names):
-            qr_tests.append(cal.split('::')[-1])
-    gcd_calls = [t for bi, t in b.calls() if (t.get('callee') or '').split('::')[-1] in GCD]
+    qr_tests, gcd_tests = loop_unit_tests(prog, eng, b, fd, in_loop)
+    gcd_calls = gcd_tests
+    has_gt = has_gt or any('>' in w for w in qr_tests + gcd_tests)
     yield Ob('RF-Q', '%s#exit-condition' % RQ, len(qr_tests) >= 1 and len(gcd_tests) >= 1 and len(gcd_calls) >= 1 and has_gt,
              'the loop is left only with qr > 1 and gcd(qr, n) == 1', b.span,
              fact={'candidate_compared_with_1': qr_tests, 'gcd_compared_with_1': gcd_tests, 'gcd_calls': len(gcd_calls)},
@@ -596,13 +627,42 @@ def rule_key_generation(ctx, cfg='prod-all'):
     yield Ob('RF-Q', '%s#h' % CK, okh, 'h is random_qr(N)', ck.span, fact=okh, expected=True)
     # g_i = h^f mod N, pushed only after g_i > 1 and gcd(g_i, N) == 1
     kh = hs[0] if hs else None
-    pows = [t for bi, t in ck.calls() if (t.get('callee') or '').endswith('pow_mod_ref')]
-    okp = bool(pows) and all(t['args'][0]['k'] in ('copy', 'move') and fdc.resolve_place(t['args'][0]['pl'])[0] == kh for t in pows)
+    # the generate-and-test loop may sit in the function itself or in a closure it maps over the attribute positions
+    gbodies = [ck] + [cb for cb in prog.closures_of(CK)]
+    pows, okp = [], True
+    loop_tests = []
+    for gb in gbodies:
+        gfd = eng.fndep(gb.path)
+        gz = ctx.zone(cfg).zf(gb.path)
+        for bi, t in gb.calls():
+            if not (t.get('callee') or '').endswith('pow_mod_ref'):
+                continue
+            pows.append(t)
+            base_ok = False
+            if t['args'][0]['k'] in ('copy', 'move'):
+                r0, p0 = gfd.resolve_place(t['args'][0]['pl'])
+                if gb is ck:
+                    base_ok = r0 == kh
+                elif r0 == 1 and p0 and str(p0[0]).isdigit():
+                    cctx = gz.closure_ctx()
+                    if cctx is not None and int(p0[0]) < len(cctx[2]) and cctx[2][int(p0[0])]['k'] in ('copy', 'move'):
+                        base_ok = fdc.resolve_place(cctx[2][int(p0[0])]['pl'])[0] == kh
+            okp = okp and base_ok
+            for h_, blocks in gb.natural_loops():
+                if bi in blocks:
+                    loop_tests.append(loop_unit_tests(prog, eng, gb, gfd, blocks))
+    okp = bool(pows) and okp
     yield Ob('RF-Q', '%s#g_i=h^f' % CK, okp, 'every g_i candidate is a power of h (so it lies in the subgroup generated by h)', ck.span, fact=len(pows), expected='base h at every pow_mod site')
     pushes = [(bi, t) for bi, t in ck.calls() if (t.get('callee') or '') == 'std::vec::Vec::<T, A>::push']
+    if not pushes and loop_tests:
+        # iterator form (`(0..n).map(|_| loop { .. if test(g_i) { break g_i } }).collect()`): the loop that computes the power makes both tests
+        okl = all(c and g for c, g in loop_tests)
+        yield Ob('RF-Q', '%s#g_i-exit' % CK, okl, 'a g_i is stored only after the test g_i > 1 and gcd(g_i, N) == 1', ck.span,
+                 fact={'loops_with_power': len(loop_tests), 'tests': [{'candidate_vs_1': c, 'gcd_vs_1': g} for c, g in loop_tests][:3]}, expected='both tests in the generating loop')
+        pushes = None
     okg = bool(pushes)
     detail = []
-    for bi, t in pushes:
+    for bi, t in (pushes or []):
         gs = ga.block_gates(fdc, bi)
         names = [g.what or '' for g in gs]
         # the push is reached only through the loop exit whose condition compares g_i with 1 and gcd(g_i, N) with 1
@@ -618,7 +678,8 @@ def rule_key_generation(ctx, cfg='prod-all'):
         detail.append(sorted(set(w.split('::')[-1] for w in dom_gates))[:6])
         okg = okg and has
     gcds = [t for bi, t in ck.calls() if (t.get('callee') or '').endswith('gcd_ref')]
-    yield Ob('RF-Q', '%s#g_i-exit' % CK, okg and len(gcds) >= 1, 'a g_i is stored only after the test g_i > 1 and gcd(g_i, N) == 1', ck.span,
+    if pushes is not None:
+      yield Ob('RF-Q', '%s#g_i-exit' % CK, okg and len(gcds) >= 1, 'a g_i is stored only after the test g_i > 1 and gcd(g_i, N) == 1', ck.span,
              fact={'dominating_comparisons': detail, 'gcd_calls': len(gcds)}, expected='comparison gate dominating the push')
 
 
@@ -634,7 +695,26 @@ def rule_random_helpers(ctx, cfg='prod-all'):
     zf = z.zf(RB)
     sb = [(bi, t) for bi, t in b.calls() if (t.get('callee') or '').endswith('set_bit')]
     rb = [(bi, t) for bi, t in b.calls() if (t.get('callee') or '').endswith('Integer::random_bits')]
-    ok = len(sb) == 1 and len(rb) == 1 and b.dominates(rb[0][0], sb[0][0])
+    rb_term = zf.term_op(rb[0][1]['args'][0]) if rb else None
+    rb_block = rb[0][0] if rb else None
+    if not rb:
+        # the draw may sit in a closure handed to a helper that provides the generator (`with_csprng(|rand| Integer::random_bits(n, rand))`):
+        # the width in this function's terms, at the call that runs the closure
+        for cb in prog.closures_of(RB):
+            czf = z.zf(cb.path)
+            for cbi, ct in cb.calls():
+                if (ct.get('callee') or '').endswith('Integer::random_bits'):
+                    cctx = czf.closure_ctx()
+                    tt = czf.term_op(ct['args'][0])
+                    if cctx is not None and tt is not None and tt[0] and tt[0].startswith('cap') and int(tt[0][3:]) < len(cctx[2]):
+                        rb_term = zf.term_op(cctx[2][int(tt[0][3:])])
+                        if rb_term is not None:
+                            rb_term = (rb_term[0], rb_term[1] + tt[1])
+                    elif tt is not None and tt[0] is None:
+                        rb_term = tt
+                    rb = [(cbi, ct)]
+                    rb_block = cctx[3][0] if cctx is not None and cctx[3] is not None else None
+    ok = len(sb) == 1 and len(rb) == 1 and rb_block is not None and b.dominates(rb_block, sb[0][0])
     idx_ok = False
     val_ok = False
     if sb:
@@ -644,25 +724,35 @@ def rule_random_helpers(ctx, cfg='prod-all'):
         val_ok = t['args'][2]['k'] == 'const' and t['args'][2].get('int') == '1'
     yield Ob('RF-Q', '%s#top-bit' % RB, ok and idx_ok and val_ok, 'random_bits(n) sets bit n - 1 of an n-bit random value (exactly n bits)', b.span,
              fact={'set_bit_after_random_bits': ok, 'index_is_n_minus_1': idx_ok, 'value_true': val_ok}, expected='all true')
-    yield Ob('RF-Q', '%s#same-n' % RB, bool(rb) and zf.term_op(rb[0][1]['args'][0]) == ('p1', 0), 'the random value has n bits', b.span,
-             fact=str(zf.term_op(rb[0][1]['args'][0]) if rb else None), expected='p1')
+    yield Ob('RF-Q', '%s#same-n' % RB, bool(rb) and rb_term == ('p1', 0), 'the random value has n bits', b.span,
+             fact=str(rb_term), expected='p1')
     # seeds of the ChaCha generators come from thread_rng
     for fn in ('utils::random::random_bits', 'utils::random::random_number', 'utils::random::rand_int'):
         bb = prog.bodies.get(fn)
         if bb is None:
             raise AnchorMissing(fn)
         fdd = eng.fndep(fn)
-        seeds = [(bi, t) for bi, t in bb.calls() if 'from_seed' in (t.get('callee') or '')]
-        ok = len(seeds) == 1
+        # the generator may be built by this function or by a helper it calls (directly or through random_number / a closure-taking helper)
+        from flow import walk as _walk
+        seeds = []
+        for fr in _walk(eng, fn, max_depth=4, include_closures=False):
+            if not fr.path.startswith('utils::random'):
+                continue
+            for bi, t in fr.body.calls():
+                if 'from_seed' in (t.get('callee') or ''):
+                    seeds.append((fr, bi, t))
+        seen_sites = {(fr.path, bi) for fr, bi, t in seeds}
+        ok = len(seen_sites) == 1
         prov = None
         if seeds:
-            prov = fdd.read_op(seeds[0][1]['args'][0])
+            fr0, _bi0, t0 = seeds[0]
+            prov = fr0.lift(fr0.fd.read_op(t0['args'][0]))
             ok = ok and any(a[0] == 'o' and a[1].endswith('thread_rng') for a in prov) and not any(strip(a)[0] in ('p', 's') or (a[0] == 'c' and a[1] not in ('0',)) for a in prov)
         yield Ob('RF-G1', '%s#seed' % fn, ok, 'the ChaCha20 generator is seeded from rand::thread_rng and nothing else', bb.span, fact=fmt_atoms(bb, prov or set()), expected='{rand::thread_rng}')
     RI = 'utils::random::rand_int'
     bb = prog.bodies[RI]
     fdd = eng.fndep(RI)
-    rbel = [t for bi, t in bb.calls() if (t.get('callee') or '').endswith('random_below')]
+    rbel = [t for bi, t in bb.calls() if (t.get('callee') or '').endswith('random_below') or (local_target(eng, t) or '').endswith('random_number')]
     ok = len(rbel) == 1
     if rbel:
         at = fdd.read_op(rbel[0]['args'][0])
